@@ -33,6 +33,8 @@ func rulesC17(e *Engine, r *Report) {
 			C("("+file+"#1 != global(filepath.SkipDir))", "errNotSkip"),
 			C("(global(filepath.SkipDir) != "+file+"#1)", "errNotSkip"),
 			C("!call(errors.Is)("+file+"#1, global(filepath.SkipDir))", "errNotSkip"),
+			C("!call(os.IsNotExist)("+file+"#1)", "errNotGone"),
+			C("!call(errors.Is)("+file+"#1, global(fs.ErrNotExist))", "errNotGone"),
 		)
 		n := e.Guarded(r, "R17.1", "store.(*Local).handleNode: append to the scan result", fn, e.instrMatch("store(p0.scanFiles = builtin(append)(p0.scanFiles, ["+file+"#0]))"), cls,
 			func(l LabelSet) bool {
@@ -50,6 +52,8 @@ func rulesC17(e *Engine, r *Report) {
 			}
 			if rv := e.Canon(rt.Results[0]); rv != "nil" && rv != "global(filepath.SkipDir)" && rw.W.HasAll("haveInfo", "noErr") {
 				// an error produced while looking at a file (newLocalFile answers SkipDir for a link to a directory when links are not followed)
+				r.Check(rw.W.Has("errNotGone"), "R17.1", "store.(*Local).handleNode: a node that is gone (a dangling link, a file that vanished) does not stop the scan "+rw.W.String(), e.InstrPos(rt),
+					"a not-exist error of the file constructor is handed to the walk: the walk stops, Scan returns the error and NO file of the tree is returned - on every scan while the dangling link is there ("+rv+")", 1, rv)
 				r.Check(rw.W.Has("errNotSkip"), "R17.1", "store.(*Local).handleNode: a file node never answers SkipDir "+rw.W.String(), e.InstrPos(rt),
 					"an error of the file constructor is handed to the walk without excluding filepath.SkipDir: for a non-directory the walk abandons the rest of the containing directory, so eligible siblings are never scanned ("+rv+")", 1, rv)
 			}
@@ -444,6 +448,46 @@ func rulesC17(e *Engine, r *Report) {
 				"a version field of the cached entry keeps the old version's value", 1, rw.W.String())
 		}
 		r.Min("R17.10", "returns of the existing-entry branch of add", n, 1)
+	}
+	// ---------------------------------------------------------------- R17.11
+	r.Rule("R17.11", "a symbolic link to a file is resolved from where it is: when links are not followed newLocalFile stats the link's target - the link text as it is only when it is absolute, otherwise joined to the link's own directory (a bare relative text would be looked up in the process's working directory: the stat fails and the scan stops, or a different file of that name is queued)")
+	if fn := needFn(e, r, "R17.11", "store.newLocalFile"); fn != nil {
+		raw := "call(os.Readlink)(p0)#0"
+		joined := "call(filepath.Join)([call(filepath.Dir)(p0), " + raw + "])"
+		sts := e.findInstrs(fn, "call(os.Stat)(§)", false)
+		r.Min("R17.11", "stat of the link target in newLocalFile", len(sts), 1)
+		for _, in := range sts {
+			arg := in.(ssa.CallInstruction).Common().Args[0]
+			ok := true
+			var facts []string
+			var visit func(v ssa.Value, conds []string)
+			visit = func(v ssa.Value, conds []string) {
+				if ph, isPhi := v.(*ssa.Phi); isPhi {
+					for i, ed := range ph.Edges {
+						pred := ph.Block().Preds[i]
+						cs := e.domConds(pred)
+						if t, isIf := pred.Instrs[len(pred.Instrs)-1].(*ssa.If); isIf && pred.Succs[0] != pred.Succs[1] {
+							cs = append(cs, e.CondStr(t.Cond, pred.Succs[0] == ph.Block()))
+						}
+						visit(ed, cs)
+					}
+					return
+				}
+				c := e.Canon(v)
+				switch {
+				case c == joined:
+					facts = append(facts, "relative: "+c)
+				case c == raw && hasStr(conds, "call(filepath.IsAbs)("+raw+")"):
+					facts = append(facts, "absolute: "+c)
+				default:
+					ok = false
+					facts = append(facts, "UNRESOLVED LINK TEXT: "+c)
+				}
+			}
+			visit(arg, e.domConds(in.Block()))
+			r.Check(ok, "R17.11", "store.newLocalFile: the link target is absolute or taken relative to the link's directory", e.InstrPos(in),
+				"os.Stat is applied to the link text as written: a relative target is resolved against the process's working directory", 1, facts...)
+		}
 	}
 }
 
